@@ -3,6 +3,7 @@ CONSTANTS
   WorkerCpus <- S2_Workers
   WorkerGroup <- S2_Groups
   Menu <- S2_Menu
+  OpenJobs <- S2_Open
   Classes <- S2_Classes
   MaxLosses = 1
   MaxCancels = 2
@@ -21,10 +22,9 @@ INVARIANTS
   C01_JobAgrees
   C02_Registry
   C02_ClosedJobsComplete
-  C03_NeverStartedAfterFailedDep
-  C03_PropagateAtRest
+  C03_NeverStartedAfterFailedDepModLate
+  C03_PropagateAtRestModLate
   C03_Unaffected
-  C03_DepsCounted
   C04_RunningExclusive
   C04_RunningExact
   C05_NoOverbookModHandover
